@@ -14,6 +14,28 @@ class Stuck(Exception):
     pass
 
 
+def _resolve_mrefs(t, pre_of, depth=0):
+    """`f(&mut local, ..)` -> `f(<value the local held before the call>, ..)`: an iterator adapter chain is then a term"""
+    if not isinstance(t, tuple) or not t or depth > 40:
+        return t
+    if t[0] == 'call' and len(t) >= 4:
+        args = t[2]
+        pre = pre_of.get(t[3])
+        new = tuple((_resolve_mrefs(pre[i], pre_of, depth + 1) if (a[0] == 'mref' and pre is not None and i < len(pre)) else _resolve_mrefs(a, pre_of, depth + 1)) for i, a in enumerate(args))
+        return ('call', t[1], new) + tuple(t[3:])
+    if t[0] in ('ref', 'deref', 'discr'):
+        return (t[0], _resolve_mrefs(t[1], pre_of, depth + 1))
+    if t[0] == 'field':
+        return ('field', _resolve_mrefs(t[1], pre_of, depth + 1), t[2])
+    if t[0] == 'un':
+        return ('un', t[1], _resolve_mrefs(t[2], pre_of, depth + 1))
+    if t[0] == 'bin':
+        return ('bin', t[1], _resolve_mrefs(t[2], pre_of, depth + 1), _resolve_mrefs(t[3], pre_of, depth + 1))
+    if t[0] == 'cast':
+        return ('cast', t[1], _resolve_mrefs(t[2], pre_of, depth + 1)) + tuple(t[3:])
+    return t
+
+
 class DTree:
     def __init__(self, facts):
         self.facts = facts
@@ -28,8 +50,9 @@ class DTree:
             for p in SymEx(b, max_paths=3000).run():
                 if p.end != 'return':
                     continue
-                conds = [(e.term, e.value, e.args) for e in p.branches() if not (e.name or '').startswith('assert:')]
-                out.append((conds, p.ret, p))
+                pre_of = {e.site: e.pre for e in p.calls() if e.pre and any(a[0] == 'mref' for a in e.args)}
+                conds = [(_resolve_mrefs(e.term, pre_of), e.value, e.args) for e in p.branches() if not (e.name or '').startswith('assert:')]
+                out.append((conds, _resolve_mrefs(p.ret, pre_of) if p.ret is not None else None, p))
             self._paths[defp] = out
         return self._paths[defp]
 
